@@ -387,7 +387,13 @@ func c11Refresh(p *chk.Prog, r *chk.Report) {
 				okRemoved = ok2 && len(ends) > 0 && rep && len(inst) == 1
 				// the old pool set is walked before the new one is installed
 				for _, ol := range sp.RangeLoops(isOld) {
-					if len(inst) == 1 && !g.AfterLoop(inst[0], ol) {
+					collects := false
+					for _, d := range assignsTo(sp, sp.ObjOf(rs.X)) {
+						if chk.InBody(ol, d) {
+							collects = true
+						}
+					}
+					if collects && len(inst) == 1 && !g.AfterLoop(inst[0], ol) {
 						okRemoved = false
 					}
 				}
